@@ -659,4 +659,16 @@ def shapes_c06(tier):
                         's': {'props': {'maxchars': 2}}, 'e': {'replace': T.tojson(('enum', (('a', 1), ('b', 2), ('c', 3))))},
                         'arr': {'props': {'maxlen': 2}}},
         }}
-    return [gk, gx_shape(True), gs]
+    d100 = ('double', 0.0, 100.0, None, None)
+    gm = {   # containers whose member types carry limits the configuration may narrow
+        'name': 'GM', 'base': 'Module', 'features': [],
+        'levels': [
+            {'params': [P('ad', ('array', d100, 0, 3), 'rw_write', rfunc=True),
+                        P('ai', ('array', I09, 0, 2), 'rw_nowrite'),
+                        P('asc', ('array', ('scaled', 0.5, -10.0, 10.0), 0, 2), 'rw_write', rfunc=True),
+                        P('ast', ('array', ('string', 0, 4, False), 0, 2), 'rw_write', rfunc=True),
+                        P('aad', ('array', ('array', d100, 0, 2), 0, 2), 'rw_write', rfunc=True),
+                        P('aai', ('array', ('array', I09, 1, 2), 0, 2), 'rw_nowrite')],
+             'commands': []},
+        ]}
+    return [gk, gx_shape(True), gs, gm]
